@@ -328,7 +328,7 @@ type Program struct {
 	// of package 0 ("file") or in injector file 0 ("injector"); resolved when rendering, so that
 	// mutants that empty a package stay well-formed.
 	BlankLibs string `json:"blank_libs,omitempty"`
-	InjRaw          string   `json:"inj_raw,omitempty"`
+	InjRaw    string `json:"inj_raw,omitempty"`
 	// AliasImports: the user's files import the program's own packages under an alias that
 	// differs from the package name (al_<name>).
 	AliasImports bool `json:"alias_imports,omitempty"`
